@@ -1343,13 +1343,20 @@ class FileBuilder:
         else:
             return None
 
-    def _apply_cached_suboperations(self, operation):
+    def _apply_cached_suboperations(self, operation, applied_filenames):
         """Make the file system changes for reusing cached suboperations.
 
         Make the changes to the file system (including to ``_backups``
         and ``_build_dirs``) needed to apply the results of the
         suboperations of the specified cached ``ComplexOperation``
         entry.
+
+        Arguments:
+            operation (ComplexOperation): The cached operation.
+            applied_filenames (list<str>): A list to which to append the
+                filenames of the build file suboperations for which we
+                called ``_build_dirs.started_building_file`` (without a
+                subsequent call to ``error_building_file``).
         """
         for suboperation in operation.suboperations:
             if (isinstance(suboperation, BuildFileOperation) and
@@ -1360,10 +1367,12 @@ class FileBuilder:
                     filename, created_dirs)
                 try:
                     self._ensure_dirs_case(locked_created_dirs)
-                    self._apply_cached_suboperations(suboperation)
+                    self._apply_cached_suboperations(
+                        suboperation, applied_filenames)
                 except Exception:
                     self._build_dirs.error_building_file(filename)
                     raise
+                applied_filenames.append(filename)
             elif isinstance(suboperation, ComplexOperation):
                 if (isinstance(suboperation, BuildFileOperation) and
                         os.path.isfile(suboperation.filename) and
@@ -1375,7 +1384,35 @@ class FileBuilder:
                         'Moved {:s} to a temporary directory, because the '
                         'cached build_file* call for that file raised an '
                         'exception'.format(suboperation.filename))
-                self._apply_cached_suboperations(suboperation)
+                self._apply_cached_suboperations(
+                    suboperation, applied_filenames)
+
+    def _use_cached_operation(self, operation, cached_operation):
+        """Apply a cached operation and record it in ``_new_cache``.
+
+        This calls ``_apply_cached_suboperations(cached_operation, -)``
+        and ``_new_cache.use_cached_operation(operation)``. If either
+        raises, e.g. because we are unable to create a directory or
+        because another thread is building one of the files, we release
+        the directories we reserved for the suboperations' files.
+        """
+        applied_filenames = []
+        try:
+            self._apply_cached_suboperations(
+                cached_operation, applied_filenames)
+            self._finish_using_cached_operation(operation, cached_operation)
+            self._new_cache.use_cached_operation(operation)
+        except Exception:
+            for filename in reversed(applied_filenames):
+                self._build_dirs.error_building_file(filename)
+            raise
+
+    def _finish_using_cached_operation(self, operation, cached_operation):
+        """Copy the results of ``cached_operation`` to ``operation``."""
+        operation.suboperations = cached_operation.suboperations
+        operation.return_value = cached_operation.return_value
+        with self._lock:
+            operation.is_finished = True
 
     def _dirs_to_make(self, dir_, created_files):
         """Return the parents of ``dir_`` needed to create to make ``dir_``.
@@ -1706,14 +1743,8 @@ class FileBuilder:
         if file_comparison_result is None:
             return False
 
-        self._apply_cached_suboperations(cached_operation)
         operation.file_comparison_result = file_comparison_result
-        operation.suboperations = cached_operation.suboperations
-        operation.return_value = cached_operation.return_value
-
-        with self._lock:
-            operation.is_finished = True
-        self._new_cache.use_cached_operation(operation)
+        self._use_cached_operation(operation, cached_operation)
         return True
 
     def _rebuild_file(self, func):
@@ -1834,13 +1865,7 @@ class FileBuilder:
 
         cached_operation = self._subbuild_cache_lookup(subbuild_key)
         if cached_operation is not None:
-            self._apply_cached_suboperations(cached_operation)
-            operation.suboperations = cached_operation.suboperations
-            operation.return_value = cached_operation.return_value
-
-            with self._lock:
-                operation.is_finished = True
-            self._new_cache.use_cached_operation(operation)
+            self._use_cached_operation(operation, cached_operation)
         else:
             description = 'the subbuild function {:s}'.format(
                 operation.func_name)
